@@ -231,8 +231,33 @@ pub fn run_history(rng: &mut Rng, nops: usize, st: &mut Stats) -> Result<usize, 
                     rng.pick_s(PATTERNS)
                 };
                 let ci = rng.chance(1, 2);
-                log.push(format!("#{opno} eat({pat:?}, ci={ci})"));
-                let got = if ci { q.eat(pat, u8::eq_ignore_ascii_case) } else { q.eat(pat, u8::eq) };
+                // one call in six uses another symmetric comparator that keeps ASCII apart from non-ASCII (white-space
+                // class, '-' ~ '_'): eat is documented to compare with the caller's function, and for a symmetric one the
+                // answer does not depend on the argument order
+                let custom = if rng.chance(1, 6) { 1 + rng.below(2) } else { 0 };
+                let swapped: String;
+                let pat: &str = if custom != 0 && rng.chance(2, 3) {
+                    swapped = pat.chars().map(|c| match (custom, c) { (1, ' ') => '\t', (1, '\t') => '\n', (1, '\n') => ' ', (2, '-') => '_', (2, '_') => '-', _ => c }).collect();
+                    &swapped
+                } else {
+                    pat
+                };
+                fn eq_ws(a: &u8, b: &u8) -> bool {
+                    a == b || (a.is_ascii_whitespace() && b.is_ascii_whitespace())
+                }
+                fn eq_dash(a: &u8, b: &u8) -> bool {
+                    a == b || (matches!(*a, b'-' | b'_') && matches!(*b, b'-' | b'_'))
+                }
+                log.push(format!("#{opno} eat({pat:?}, ci={ci}, custom={custom})"));
+                let got = match custom {
+                    1 => q.eat(pat, eq_ws),
+                    2 => q.eat(pat, eq_dash),
+                    _ if ci => q.eat(pat, u8::eq_ignore_ascii_case),
+                    _ => q.eat(pat, u8::eq),
+                };
+                if custom != 0 {
+                    st.count("eat_with_symmetric_custom_comparator");
+                }
                 let cb = cat.as_bytes();
                 let mut want = Some(true);
                 for (k, pb) in pat.bytes().enumerate() {
@@ -240,7 +265,12 @@ pub fn run_history(rng: &mut Rng, nops: usize, st: &mut Stats) -> Result<usize, 
                         want = None;
                         break;
                     }
-                    let eq = if ci { cb[k].eq_ignore_ascii_case(&pb) } else { cb[k] == pb };
+                    let eq = match custom {
+                        1 => eq_ws(&cb[k], &pb),
+                        2 => eq_dash(&cb[k], &pb),
+                        _ if ci => cb[k].eq_ignore_ascii_case(&pb),
+                        _ => cb[k] == pb,
+                    };
                     if !eq {
                         want = Some(false);
                         break;
@@ -359,7 +389,7 @@ pub fn run(args: &Args) -> (Meta, Stats) {
     });
     let mut m = super::meta(
         args,
-        "random interleavings of push_back / push_front / next / peek / pop_except_from / eat / pop_front / is_empty / swap_with / replace_with over random partitions of text (every character below 64, multi-byte characters incl. those whose encodings end in 0x80/0xBF placed next to set members, runs of up to 40 characters, look-ahead keywords split across 1-4 buffers), random SmallCharSets (the tokenizer's sets and arbitrary 64-bit sets), exact and ASCII-case-insensitive comparators; every return value is compared with a VecDeque<String> model (eat decided on the concatenation) and the drained remainder must equal the model (nothing lost, duplicated or reordered). The harness is also built with debug assertions in the 'checked' profile and run under Miri/ASan by the sanitizer legs. Each history is a distinct case (hash = its seed).",
+        "random interleavings of push_back / push_front / next / peek / pop_except_from / eat / pop_front / is_empty / swap_with / replace_with over random partitions of text (every character below 64, multi-byte characters incl. those whose encodings end in 0x80/0xBF placed next to set members, runs of up to 40 characters, look-ahead keywords split across 1-4 buffers), random SmallCharSets (the tokenizer's sets and arbitrary 64-bit sets), exact, ASCII-case-insensitive and two other symmetric comparators (white-space class, '-' ~ '_'); every return value is compared with a VecDeque<String> model (eat decided on the concatenation) and the drained remainder must equal the model (nothing lost, duplicated or reordered). The harness is also built with debug assertions in the 'checked' profile and run under Miri/ASan by the sanitizer legs. Each history is a distinct case (hash = its seed).",
         &["the empty pattern is not exercised (eat on an empty queue returns need-more before looking at the pattern)"],
     );
     if !sanit {
